@@ -70,10 +70,28 @@ func runProgram(ops []op, level zapcore.Level, toggles bool) string {
 	enabled := true
 	sawDisabled := false
 	before := 0
+	seg := 0
+	scratch := make([]byte, 0, 256)
 	for i, o := range ops {
 		switch o.Kind {
 		case 'W':
-			n, err := w.Write(o.Chunk)
+			if toggles {
+				// programs with disabled phases: every byte that is not a newline names the segment
+				// (number of Syncs so far) it was written in, so a message mixing two letters shows
+				// that a Sync did not act as a split point
+				for k := range o.Chunk {
+					if o.Chunk[k] != '\n' {
+						o.Chunk[k] = byte('a' + seg%26)
+					}
+				}
+			}
+			// the caller's buffer is reused and overwritten as soon as Write returns (io.Writer
+			// forbids retaining it): what is logged later must not change
+			scratch = append(scratch[:0], o.Chunk...)
+			n, err := w.Write(scratch)
+			for k := range scratch {
+				scratch[k] = 0xEE
+			}
 			if n != len(o.Chunk) || err != nil {
 				return fmt.Sprintf("op %d: Write(%d bytes) returned (%d, %v), want (%d, nil)", i, len(o.Chunk), n, err, len(o.Chunk))
 			}
@@ -87,6 +105,7 @@ func runProgram(ops []op, level zapcore.Level, toggles bool) string {
 			if enabled {
 				m.sync()
 			}
+			seg++
 		case 'D':
 			al.SetLevel(zapcore.FatalLevel + 1)
 			enabled, sawDisabled = false, true
@@ -109,7 +128,16 @@ func runProgram(ops []op, level zapcore.Level, toggles bool) string {
 	}
 	got := logs.All()
 	if toggles && sawDisabled {
-		// with disabled phases only "nothing while disabled" and the return values are judged
+		// with disabled phases "nothing while disabled", the return values and the split-point role
+		// of Sync are judged
+		for i := range got {
+			m := got[i].Message
+			for k := 1; k < len(m); k++ {
+				if m[k] != m[0] {
+					return fmt.Sprintf("message %d %q joins bytes written before and after a Sync: an explicit Sync must act as a split point (also while the level is disabled)", i, clip(m))
+				}
+			}
+		}
 		return ""
 	}
 	if len(got) != len(m.out) {
